@@ -163,6 +163,21 @@ claim('C04',
       'cursor-discipline (post-dominance) + order-provenance dataflow + structural key/percentage rules',
       'DESIGN.md §4 C04')
 
+claim('C12',
+      'Partial, static: K1 in the binning kernel every class assignment is dominated by np.isfinite(value), the '
+      'output is NaN-initialised and values above the last bound get no class; binary stores 1 under membership only '
+      'and 0 under (not member and finite) (guards extracted by the kernel interpreter); K2 data-driven classifiers '
+      'label bins with np.arange(n) (classes start at 0 and are order-preserving), reclassify enforces equal lengths; '
+      'K3 precision provenance: no allocation narrower than float64 lies on the dataflow trace from the data to the '
+      'breaks handed to the binning kernel, the cell value is compared un-narrowed, and the last break is forced to '
+      'the exact finite maximum on every path (numpy, dask, natural breaks); K4 equal-width cuts min+(i+1)(max-min)/k, '
+      'percentile levels 100 i/k capped at 100 over finite cells, de-duplicated. NOT decided (declined): correctness '
+      'of the hand-written binary search for every bin count and optimality of the Jenks dynamic programme.',
+      'Trusted: np.percentile / np.unique / np.arange semantics. The two declined clauses need loop invariants / a '
+      'global-optimum argument that no sound static rule in reach provides.',
+      'guard-dominance rules + backward dataflow slice for dtype provenance + symbolic formula comparison',
+      'DESIGN.md §4 C12')
+
 ALL = ['C%02d' % i for i in range(1, 20)]
 
 
